@@ -891,17 +891,23 @@ Section WithCfg.
     if x =? A_P then emit (EvCall "gP" []) ;;; panic
     else s <- get ;; e <- fresh_elem (next_elem s) ;; emit (EvCall "g" [e]) ;;; ret (e, sc').
 
-  Fixpoint resize_with_loop (n : nat) (v : nat) (sc : list answer) : M unit :=
-    match n with
-    | O => ret tt
-    | S n => r <- gen_elem sc ;; push v (fst r) ;;; resize_with_loop n v (snd r)
-    end.
+  (* src/lib.rs resize_with: `for _i in 0..num_elems { self.push(f()) }` as the translator renders a range
+     loop (EquivResizeWith.v) *)
+  Fixpoint resize_with_loop (fuel : nat) (v : nat) (i hi : Z) (sc : list answer) : M unit :=
+    if i <? hi then
+      match fuel with
+      | O => fun s => (OutOfFuel, s)
+      | S fuel => r <- gen_elem sc ;; push v (fst r) ;;; i' <- uadd i 1 ;; resize_with_loop fuel v i' hi (snd r)
+      end
+    else ret tt.
 
   Definition resize_with (v : nat) (new_len : Z) (sc : list answer) : M unit :=
     l <- len v ;;
-    if new_len =? l then ret tt
-    else if l <? new_len then reserve v (new_len - l) ;;; resize_with_loop (small (new_len - l)) v sc
-    else truncate v new_len.
+    if new_len <? l then truncate v new_len
+    else if new_len =? l then ret tt
+    else
+      reserve v (new_len - l) ;;;
+      resize_with_loop (small (new_len - l)) v 0 (new_len - l) sc.
 
   Fixpoint push_clones (v : nat) (es : list elem) : M unit :=
     match es with
